@@ -220,6 +220,15 @@ func main() {
 
 					treeDepth := context.Int("tree-depth")
 					batchSize := uint32(context.Uint("batch-size"))
+					// The mock tree has 2^depth leaves and the deletion generator fills 2*batch of them.
+					// Refuse dimensions that do not fit instead of emitting parameters no proof exists for.
+					leavesNeeded := uint64(batchSize)
+					if mode == server.DeletionMode {
+						leavesNeeded *= 2
+					}
+					if treeDepth < 0 || (treeDepth < 63 && leavesNeeded > uint64(1)<<uint(treeDepth)) {
+						return fmt.Errorf("batch size %d does not fit in a tree of depth %d", batchSize, treeDepth)
+					}
 					logging.Logger().Info().Msg("Generating test params for the insertion circuit")
 
 					var r []byte
